@@ -134,6 +134,11 @@ func (s *tlsALPNSolver) Present(ctx context.Context, chal acme.Challenge) error 
 	// challenge data in memory to be the generated certificate
 	cert, err := acmez.TLSALPN01ChallengeCert(chal)
 	if err != nil {
+		// CleanUp is called for every Present, failed or not, and it
+		// decrements the count, so this challenge has to be counted too
+		solversMu.Lock()
+		getSolverInfo(s.address).count++
+		solversMu.Unlock()
 		return err
 	}
 
